@@ -267,13 +267,13 @@ func splitOnce(w *writer, c *splitCase, b *modbus.Builder, target sTarget, hist 
 				hdr := packet.MBAPHeader{TransactionID: tid}
 				switch {
 				case target.Fc == 3 && target.Framing == "tcp":
-					respBytes = packet.ReadHoldingRegistersResponseTCP{MBAPHeader: hdr, ReadHoldingRegistersResponse: packet.ReadHoldingRegistersResponse{UnitID: r.UnitID, RegisterByteLen: uint8(len(data)), Data: data}}.Bytes()
+					respBytes = (&packet.ReadHoldingRegistersResponseTCP{MBAPHeader: hdr, ReadHoldingRegistersResponse: packet.ReadHoldingRegistersResponse{UnitID: r.UnitID, RegisterByteLen: uint8(len(data)), Data: data}}).Bytes()
 				case target.Fc == 3:
-					respBytes = packet.ReadHoldingRegistersResponseRTU{ReadHoldingRegistersResponse: packet.ReadHoldingRegistersResponse{UnitID: r.UnitID, RegisterByteLen: uint8(len(data)), Data: data}}.Bytes()
+					respBytes = (&packet.ReadHoldingRegistersResponseRTU{ReadHoldingRegistersResponse: packet.ReadHoldingRegistersResponse{UnitID: r.UnitID, RegisterByteLen: uint8(len(data)), Data: data}}).Bytes()
 				case target.Fc == 4 && target.Framing == "tcp":
-					respBytes = packet.ReadInputRegistersResponseTCP{MBAPHeader: hdr, ReadInputRegistersResponse: packet.ReadInputRegistersResponse{UnitID: r.UnitID, RegisterByteLen: uint8(len(data)), Data: data}}.Bytes()
+					respBytes = (&packet.ReadInputRegistersResponseTCP{MBAPHeader: hdr, ReadInputRegistersResponse: packet.ReadInputRegistersResponse{UnitID: r.UnitID, RegisterByteLen: uint8(len(data)), Data: data}}).Bytes()
 				default:
-					respBytes = packet.ReadInputRegistersResponseRTU{ReadInputRegistersResponse: packet.ReadInputRegistersResponse{UnitID: r.UnitID, RegisterByteLen: uint8(len(data)), Data: data}}.Bytes()
+					respBytes = (&packet.ReadInputRegistersResponseRTU{ReadInputRegistersResponse: packet.ReadInputRegistersResponse{UnitID: r.UnitID, RegisterByteLen: uint8(len(data)), Data: data}}).Bytes()
 				}
 				for _, mode := range []string{"strict", "lenient"} {
 					x := Ev{"ev": "extract", "target": target, "mem": c.Mem, "req": d, "mode": mode, "truncBy": tr, "response": ints(respBytes),
